@@ -56,3 +56,55 @@ def expand_oneof(t):
 
 def ev_loc(ev):
     return "%s (%s)" % (ev["at"], ev["fn"])
+
+
+INTERIOR = ("Cell<", "RefCell<", "Mutex<", "RwLock<", "Atomic", "UnsafeCell<", "OnceCell<", "Rc<", "Arc<", "*mut ", "*const ",
+            "&'static mut", "LazyLock", "OnceLock")
+
+
+def type_walk(ctx, adt, cfg="A", seen=None):
+    """field types (transitively through workspace ADTs) of a workspace ADT: list of (owner, field, type)"""
+    seen = set() if seen is None else seen
+    out = []
+    F = ctx.F(cfg)
+    if adt in seen or adt not in F.adts:
+        return out
+    seen.add(adt)
+    a = F.adts[adt]
+    crate = a["crate"]
+    for v in a["variants"]:
+        for fname, fty, _ in v["fields"]:
+            out.append((adt, fname, fty))
+            # follow workspace types mentioned in the field type
+            for other in F.adts:
+                short = other.split("::", 1)[1]
+                if other.startswith(crate + "::") and short.split("::")[-1] in fty.replace("<", " ").replace(">", " ").replace(",", " ").replace("(", " ").replace(")", " ").replace("&", " ").split() or short in fty:
+                    out.extend(type_walk(ctx, other, cfg, seen))
+    return out
+
+
+def err_assign_blocks(fn):
+    """blocks of fn that put an Err / None failure value into the return place"""
+    out = set()
+    for bi, b in enumerate(fn.blocks):
+        for s in b["s"]:
+            r = s.get("r")
+            if s.get("l") and s["l"][0] == 0 and not s["l"][1] and r and "agg" in r and isinstance(r["agg"], dict) \
+                    and r["agg"].get("vname") in ("Err",):
+                out.add(bi)
+        t = b["t"]
+        if "call" in t and t["dest"][0] == 0 and not t["dest"][1]:
+            k = t["call"].get("k") or {}
+            if "from_residual" in (k.get("dname") or ""):
+                out.add(bi)
+    return out
+
+
+def frame_chain(eng, frame_key):
+    """[(frame, block-in-that-frame)] from the given frame up to the root: the call blocks"""
+    out = []
+    fr = eng.frames.get(frame_key)
+    while fr is not None and fr.parent is not None:
+        out.append((fr.parent, fr.call_block))
+        fr = fr.parent
+    return out
